@@ -15,6 +15,20 @@ import (
 // handed to the primary GC) plus the unflushed pool.
 type Ledger struct {
 	expected []freed
+	// everCurrent holds every location the index ever returned for a present
+	// key. A recorded location outside this set was never current (the copy
+	// made by a relocation that the index refused): the statement allows it,
+	// at most once.
+	everCurrent map[flEntry]bool
+}
+
+func (l *Ledger) noteCurrent(w *World) {
+	if l.everCurrent == nil {
+		l.everCurrent = map[flEntry]bool{}
+	}
+	for _, b := range w.locateAll() {
+		l.everCurrent[flEntry{uint64(b.Offset), uint32(b.Size)}] = true
+	}
 }
 
 type freed struct {
@@ -148,6 +162,10 @@ func (l *Ledger) Check(w *World, gcComplete bool) *Violation {
 		switch {
 		case rec[e] < exp[e]:
 			return violO("ledger", "ledger:missing", "location %d (size %d) stopped being current (%s) %d time(s) but was recorded on the freelist %d time(s)", e.Off, e.Size, why[e], exp[e], rec[e])
+		case exp[e] == 0 && !l.everCurrent[e]:
+			if rec[e] > 1 {
+				return violO("ledger", "ledger:double", "location %d (size %d), which was never current, was recorded on the freelist %d times", e.Off, e.Size, rec[e])
+			}
 		case exp[e] == 0:
 			return violO("ledger", "ledger:spurious", "location %d (size %d) was recorded on the freelist although it never stopped being current", e.Off, e.Size)
 		case rec[e] > exp[e]:
